@@ -24,6 +24,10 @@ func (e *executor[R]) PreExecute(exec policy.ExecutionInternal[R]) *common.Polic
 				ExecutionAttempt: exec,
 			})
 		}
+		if canceled, cancelResult := exec.IsCanceledWithResult(); canceled && !errors.Is(err, ErrFull) {
+			// Report the cause of the cancellation, such as ErrExecutionCanceled, as the rate limiter does
+			return cancelResult
+		}
 		return internal.FailureResult[R](err)
 	}
 	return nil
